@@ -680,11 +680,11 @@ def shards(tier, seed):
     out = []
     if tier == "quick":
         for i in range(6):
-            out.append({"kind": "classes", "sub": i, "of": 6, "double_cfgs": 1})
+            out.append({"kind": "classes", "sub": i, "of": 6, "double_cfgs": 1, "double_stride": 3})
         for i in range(2):
             out.append({"kind": "sizes", "sub": i, "of": 2, "double_cfgs": 2})
         for i in range(3):
-            out.append({"kind": "random", "sub": i, "n": 900, "double_every": 6})
+            out.append({"kind": "random", "sub": i, "n": 600, "double_every": 9})
         for i in range(3):
             out.append({"kind": "long", "sub": i, "of": 3, "big": False})
         for i in range(2):
@@ -739,7 +739,7 @@ def run_classes(spec, rec, rng):
                     rec.count("unit:" + uname.rstrip("0123456789-+"))
                     S = b"".join(frames)
                     for ci, cfg in enumerate(CONFIGS):
-                        dbl = len(S) <= 150 and ((ci + idx) % 16) < ndc
+                        dbl = len(S) <= 150 and ((ci + idx) % 16) < ndc and idx % spec.get("double_stride", 1) == 0
                         base, _ = check_stream(frames, cfg, rec, rng, ctx, dbl, nrand=2)
                         if dbl:
                             rec.count("streams-with-exhaustive-double-cuts")
